@@ -574,7 +574,7 @@ class FSInterp(ResultInterp):
     def isinstance_hook(self, v, klass, node):
         ks = klass if isinstance(klass, tuple) else (klass,)
         if isinstance(v, PathV):
-            return any(isinstance(k, Sym) and k.name.endswith("pathlib.Path") for k in ks)
+            return any(isinstance(k, Sym) and k.name.split(".")[-1] in ("Path", "PurePath", "PosixPath", "PathLike") for k in ks)
         if isinstance(v, str) or isinstance(v, (int, float)):
             return False
         return super().isinstance_hook(v, klass, node)
@@ -675,6 +675,8 @@ class FSInterp(ResultInterp):
         if name == "csv.writer" and args and isinstance(args[0], FileH):
             self.root.csv_sites.append(("writer", dict(kwargs), node, self.func.qual, args[0]))
             return CsvW(args[0], kwargs)
+        if name == "os.fspath" and len(args) == 1 and isinstance(args[0], (str, PathV)):
+            return args[0].s if isinstance(args[0], PathV) else args[0]
         if name in ("os.remove", "os.unlink"):
             p = args[0].s if isinstance(args[0], PathV) else args[0]
             self.fslog("remove", p)
